@@ -46,6 +46,9 @@ class Interp:
             if name != base:
                 return FALSE
             return TRUE
+        if k == 'tuple' and pat.get('subs') and self.enum in pat.get('ty', '').split(',')[0] and all(x['k'] == 'wild' for x in pat['subs'][1:]):
+            # the (Expr, annotations) pair of the evaluator matched whole: `(Expr::Reference(_, v), _)`
+            return self.pat_matches(pat['subs'][0], v)
         if k == 'or':
             rs = [self.pat_matches(a, v) for a in pat['alts']]
             if TRUE in rs:
